@@ -287,6 +287,13 @@ func (t *Tool) Kind(id, a int64) interface{} {
 	return a
 }
 
+// KindOf reports the dynamic kind and the value it was given (constants that look alike in
+// print - "7" and 7, "true" and true - must arrive as what they are).
+func (t *Tool) KindOf(v interface{}) string {
+	t.enter("KindOf", v)
+	return fmt.Sprintf("%T:%v", v, v)
+}
+
 // Two always returns two values: calling it is an error by documentation.
 func (t *Tool) Two(id, a int64) (int64, int64) { t.enter("Two", id, a); return a, a }
 
